@@ -24,13 +24,22 @@
 (*                                                                         *)
 (* TOTAL: a rejected event prints <<"FAIL", line, id, clauses>> and        *)
 (* validation continues; TraceAccepted checks every line was consumed.     *)
+(*                                                                         *)
+(* Events that need the reference ITERATION ("exact", "fixed") are         *)
+(* consumed over several TLC steps: one step per iteration, the reference  *)
+(* state held in the variable `st` (TLC evaluates operator arguments       *)
+(* lazily, a run of n iterations inside ONE expression costs ~2^n; with    *)
+(* the state in a variable it costs n).                                    *)
 (***************************************************************************)
 EXTENDS SolverMachine, Json, IOUtils
 
 Trace == ndJsonDeserialize(IOEnv.TRACE_FILE)
 
-VARIABLE l
-tvars == <<vars, l>>
+VARIABLES l,     \* line of the trace being consumed
+          sub,   \* sub-step within a multi-step event (0 = not started)
+          st,    \* reference state of the multi-step event
+          acc    \* clauses collected so far for the multi-step event
+tvars == <<vars, l, sub, st, acc>>
 
 Min2i(a, b) == IF a <= b THEN a ELSE b
 
@@ -41,18 +50,26 @@ PairClauses(e) ==
   \cup (IF \E j \in 1..Min2i(Len(e.a), Len(e.b)) : ~VecClose(e.a[j], e.b[j]) THEN {"differs"} ELSE {})
   \cup (IF e.na \notin {-1, e.niter} \/ e.nb \notin {-1, e.niter} THEN {"callback-count"} ELSE {})
 
-(* --------------------------- exact ------------------------------------- *)
-\* (TLC passes operator arguments lazily and re-evaluates them at every use; the bound variable of a
-\* quantifier over a singleton set is evaluated once - this keeps a run of n iterations linear in n)
-RECURSIVE ExactMismatch(_, _, _, _)
-ExactMismatch(I, s, xs, j) ==
-  IF j > Len(xs) THEN FALSE
-  ELSE \E s1 \in {RefStep(I, s)} :
-         (xs[j] # <<>> /\ xs[j] # s1.x) \/ ExactMismatch(I, s1, xs, j + 1)
-ExactClauses(e) ==
-  (IF Len(e.xs) # e.nit THEN {"length"} ELSE {})
-  \cup (IF \E s0 \in {RefInit(e.inst)} : ExactMismatch(e.inst, s0, e.xs, 1) THEN {"textbook"} ELSE {})
-  \cup (IF e.ncb \notin {-1, e.nit} THEN {"callback-count"} ELSE {})
+(* --------------------------- exact / fixed (multi-step) ---------------- *)
+MultiStep(e) == e.kind \in {"exact", "fixed"}
+Horizon(e) == IF e.kind = "exact" THEN e.nit ELSE 3          \* reference iterations to perform
+StartState(e) == IF e.kind = "exact" THEN RefInit(e.inst) ELSE ApiStart(e.inst, e.xstar, e.ystar)
+StartClauses(e) ==
+  IF e.kind = "exact"
+    THEN (IF Len(e.xs) # e.nit THEN {"length"} ELSE {})
+         \cup (IF e.ncb \notin {-1, e.nit} THEN {"callback-count"} ELSE {})
+    ELSE IF ~KKT(e.inst, e.xstar, e.ystar) THEN {"harness-not-kkt"} ELSE {}
+\* clause contributed by reference iteration i, whose result is s
+IterClauses(e, i, s) ==
+  IF e.kind = "exact"
+    THEN IF i <= Len(e.xs) /\ e.xs[i] # <<>> /\ e.xs[i] # s.x THEN {"textbook"} ELSE {}
+    ELSE IF s.x # e.xstar THEN {"harness-not-api-fixed"} ELSE {}
+FinalClauses(e, c) ==
+  IF e.kind = "exact" THEN c
+  ELSE IF c # {} THEN c                 \* ill-formed: not a KKT pair / not startable through the API
+  ELSE (IF \E i \in 1..Len(e.obs) : e.obs[i] # e.xstar THEN {"moved"} ELSE {})
+       \cup (IF Len(e.obs) # e.nit THEN {"callback-count"} ELSE {})
+Steps(e) == IF MultiStep(e) THEN Horizon(e) + 2 ELSE 1
 
 (* --------------------------- mono -------------------------------------- *)
 \* v = <<hi, lo>> : value / first value = (hi * 2^22 + lo) / 2^44
@@ -65,14 +82,6 @@ LimbLeSlack(w, v) ==                     \* w <= v * (1 + 2^-30) + 1e-10 (in uni
   IN  w[1] < hi \/ (w[1] = hi /\ w[2] <= lo)
 MonoClauses(e) ==
   IF \E j \in 1..(Len(e.v) - 1) : ~LimbLeSlack(e.v[j + 1], e.v[j]) THEN {"increase"} ELSE {}
-
-(* --------------------------- fixed ------------------------------------- *)
-FixedClauses(e) ==
-  LET w == <<e.xstar, e.ystar>> IN
-  IF ~KKT(e.inst, e.xstar, e.ystar) THEN {"harness-not-kkt"}
-  ELSE IF ~ApiFixed(e.inst, w) THEN {"harness-not-api-fixed"}
-  ELSE (IF \E j \in 1..Len(e.obs) : e.obs[j] # e.xstar THEN {"moved"} ELSE {})
-       \cup (IF Len(e.obs) # e.nit THEN {"callback-count"} ELSE {})
 
 (* --------------------------- conv / power / cgfinal -------------------- *)
 ConvClauses(e) == IF 10 * e.rN > e.r0 + 20 THEN {"no-progress"} ELSE {}
@@ -89,9 +98,7 @@ CGFinalClauses(e) == IF e.eN > 16 THEN {"not-exact-after-dim"} ELSE {}
 
 Clauses(e) ==
   CASE e.kind = "pair" -> PairClauses(e)
-    [] e.kind = "exact" -> ExactClauses(e)
     [] e.kind = "mono" -> MonoClauses(e)
-    [] e.kind = "fixed" -> FixedClauses(e)
     [] e.kind = "conv" -> ConvClauses(e)
     [] e.kind = "power" -> PowerClauses(e)
     [] e.kind = "power-exact" -> PowerExactClauses(e)
@@ -99,19 +106,33 @@ Clauses(e) ==
     [] OTHER -> {"unknown-kind"}
 
 TraceInit ==
-  /\ l = 1
+  /\ l = 1 /\ sub = 0 /\ st = <<>> /\ acc = {}
   /\ inst = 0 /\ split = -1 /\ k = 0 /\ rk = 0 /\ pc = 0 /\ heap = <<>> /\ ref = <<>> /\ cb = <<>> /\ kkt = {}
 
+Report(e, bad) == IF bad = {} THEN TRUE ELSE PrintT(<<"FAIL", l, e.id, bad>>)
+
+\* (the event is bound by a quantifier over a singleton: TLC evaluates it once)
 TraceStep ==
   /\ l <= Len(Trace)
-  /\ LET e == Trace[l]
-         bad == Clauses(e)
-     IN  IF bad = {} THEN TRUE ELSE PrintT(<<"FAIL", l, e.id, bad>>)
-  /\ l' = l + 1
+  /\ \E e \in {Trace[l]} :
+       IF ~MultiStep(e)
+         THEN /\ \E bad \in {Clauses(e)} : Report(e, bad)
+              /\ l' = l + 1 /\ UNCHANGED <<sub, st, acc>>
+       ELSE IF sub = 0
+         THEN /\ st' = StartState(e) /\ acc' = StartClauses(e) /\ sub' = 1 /\ l' = l
+       ELSE IF sub <= Horizon(e)
+         THEN /\ st' = RefStep(e.inst, st)
+              /\ acc' = acc \cup IterClauses(e, sub, st')
+              /\ sub' = sub + 1 /\ l' = l
+       ELSE /\ \E bad \in {FinalClauses(e, acc)} : Report(e, bad)
+            /\ l' = l + 1 /\ sub' = 0 /\ st' = <<>> /\ acc' = {}
   /\ UNCHANGED vars
 
 TraceSpec == TraceInit /\ [][TraceStep]_tvars
-TraceAccepted == TLCGet("stats").diameter - 1 = Len(Trace)
+RECURSIVE StepsFrom(_)
+StepsFrom(i) == IF i > Len(Trace) THEN 0 ELSE Steps(Trace[i]) + StepsFrom(i + 1)
+\* every line of the trace was consumed
+TraceAccepted == TLCGet("stats").diameter - 1 = StepsFrom(1)
 
 TrCatalogue == {}
 TrFalse == FALSE
